@@ -318,6 +318,7 @@ def check(case):
             posts = [ctrl.get_log_posterior(str(i)) for i in ids]
             theta = np.array([0.5, 2.0, 0.7, 0.8])
             lp = -4.0 * np.log(100.0)
+            wants = {}
             for order_pass in (0, 1):
                 # (second pass in reverse order: the objects are independent of the order they are used in)
                 for P in (posts if order_pass == 0 else list(reversed(posts))):
@@ -336,9 +337,20 @@ def check(case):
                     want = lp + float(np.sum(-0.5 * np.log(2 * np.pi) - np.log(theta[3])
                                              - (obs - conc) ** 2 / (2 * theta[3] ** 2)))
                     if len(set(tm.tolist())) < len(tm):
-                        continue          # tied measurement times: the order of the observations is not defined here
+                        wants = None      # tied measurement times: the order of the observations is not defined here
+                        continue
+                    if wants is not None:
+                        wants[i] = want - lp
                     case.close(P(theta.copy()), want, rtol=1e-6, atol=1e-8,
                                what='log-posterior of individual %s under its own %d dose events' % (pid, len(ev)))
+            if wants is not None and len(wants) == len(ids) and len(ids) >= 2:
+                # all individuals at once (fully pooled population model): every likelihood still uses its own doses
+                ctrl.set_population_model(chi.PooledModel(n_dim=4))
+                ctrl.set_log_prior(pints.ComposedLogPrior(*[pints.UniformLogPrior(0.0, 100.0) for _ in range(4)]))
+                H = ctrl.get_log_posterior()
+                case.close(H(theta.copy()), lp + sum(wants.values()), rtol=1e-6, atol=1e-8,
+                           what='fully pooled hierarchical log-posterior = prior + sum of the individuals\' '
+                                'log-likelihoods, each under its own dose events')
         with case.clause('input_unchanged'):
             case.true(df.equals(before) and list(df.columns) == list(before.columns),
                       "the caller's data frame was modified by set_data")
